@@ -246,6 +246,9 @@ func (a *Act) invoke(st *State, com *ssa.CallCommon, pos tokenPos) Val {
 		a.u.Trusted["intrinsic "+full] = true
 		return in(a, st, com, pos)
 	}
+	if v, ok := a.closedWorldInvoke(st, com, pos); ok {
+		return v
+	}
 	if a.invokeIsPure(com) {
 		a.u.Trusted["pure interface method "+full] = true
 		return a.freshResult(st, sig)
@@ -659,4 +662,110 @@ func (a *Act) traceEvent(st *State, fc *FuncContract, name string, args []Val, p
 	nl := a.u.D.Fresh("tlen", "Int")
 	a.u.Fact(eq(nl, app("+", ln, "1")))
 	st.setHeap(traceLen, "Int", nl)
+}
+
+// closedWorldInvoke: a call of an unexported method of an interface declared in the repository can only
+// reach the implementations in that package; if all of them are small effect-free functions the call is
+// the case distinction over the dynamic type tag.
+func (a *Act) closedWorldInvoke(st *State, com *ssa.CallCommon, pos tokenPos) (Val, bool) {
+	m := com.Method
+	if m.Exported() || m.Pkg() == nil || !strings.HasPrefix(m.Pkg().Path(), ModulePath) {
+		return Val{}, false
+	}
+	iface, ok := types.Unalias(com.Value.Type()).Underlying().(*types.Interface)
+	if !ok || com.Signature().Results().Len() != 1 {
+		return Val{}, false
+	}
+	recv := a.term(com.Value)
+	args := a.argVals(com)
+	rt := com.Signature().Results().At(0).Type()
+	result := a.u.D.Fresh("dyn_"+m.Name(), a.u.D.SortOf(rt))
+	var tags []Term
+	scope := m.Pkg().Scope()
+	found := 0
+	for _, name := range scope.Names() {
+		tn, ok := scope.Lookup(name).(*types.TypeName)
+		if !ok || tn.IsAlias() {
+			continue
+		}
+		for _, ct := range []types.Type{tn.Type(), types.NewPointer(tn.Type())} {
+			if _, isIface := ct.Underlying().(*types.Interface); isIface {
+				continue
+			}
+			if !types.Implements(ct, iface) {
+				continue
+			}
+			if _, isPtr := ct.(*types.Pointer); isPtr && types.Implements(tn.Type(), iface) {
+				continue // the value type already implements it; *T would be a different dynamic type only if boxed as pointer
+			}
+			sel := a.u.E.Prog.MethodSets.MethodSet(ct).Lookup(m.Pkg(), m.Name())
+			if sel == nil {
+				return Val{}, false
+			}
+			fn := a.u.E.Prog.MethodValue(sel)
+			if fn == nil || !a.canInline(fn, a.stack) {
+				return Val{}, false
+			}
+			tag := intLit(int64(a.u.D.TypeTag(ct)))
+			var rv Term
+			if a.u.D.SortOf(ct) == "Ref" {
+				rv = app("iptr", recv)
+			} else {
+				rv = a.load(st, app("iptr", recv), ct)
+			}
+			r := a.callPure(st, fn, append([]Val{{T: rv, Typ: ct}}, args...))
+			a.u.Fact(implies(eq(app("itag", recv), tag), eq(result, r.T)))
+			tags = append(tags, eq(app("itag", recv), tag))
+			found++
+		}
+	}
+	if found == 0 {
+		return Val{}, false
+	}
+	// a nil interface panics; any other dynamic type is impossible (closed world)
+	a.oblige(st, "nil", "invoke:"+m.Name(), pos, "method call on nil interface", not(eq(app("itag", recv), "0")))
+	st.assume(or(tags...))
+	a.u.Trusted["closed-world dispatch of "+m.Pkg().Name()+"."+m.Name()+" over the implementations in its package"] = true
+	return Val{T: result, Typ: rt}, true
+}
+
+// closedWorldTargets: the implementations an unexported interface method call can reach, if all of
+// them are inlinable; ok=false otherwise.
+func (a *Act) closedWorldTargets(com *ssa.CallCommon) (fns []*ssa.Function, ok bool) {
+	m := com.Method
+	if m == nil || m.Exported() || m.Pkg() == nil || !strings.HasPrefix(m.Pkg().Path(), ModulePath) {
+		return nil, false
+	}
+	iface, isI := types.Unalias(com.Value.Type()).Underlying().(*types.Interface)
+	if !isI || com.Signature().Results().Len() != 1 {
+		return nil, false
+	}
+	scope := m.Pkg().Scope()
+	for _, name := range scope.Names() {
+		tn, isT := scope.Lookup(name).(*types.TypeName)
+		if !isT || tn.IsAlias() {
+			continue
+		}
+		for _, ct := range []types.Type{tn.Type(), types.NewPointer(tn.Type())} {
+			if _, isIface := ct.Underlying().(*types.Interface); isIface {
+				continue
+			}
+			if !types.Implements(ct, iface) {
+				continue
+			}
+			if _, isPtr := ct.(*types.Pointer); isPtr && types.Implements(tn.Type(), iface) {
+				continue
+			}
+			sel := a.u.E.Prog.MethodSets.MethodSet(ct).Lookup(m.Pkg(), m.Name())
+			if sel == nil {
+				return nil, false
+			}
+			fn := a.u.E.Prog.MethodValue(sel)
+			if fn == nil || !a.canInline(fn, a.stack) {
+				return nil, false
+			}
+			fns = append(fns, fn)
+		}
+	}
+	return fns, len(fns) > 0
 }
